@@ -12,3 +12,6 @@ import Precis.Props.C04
 import Precis.Props.C05
 import Precis.Props.C06
 import Precis.Props.C07
+import Precis.Props.C01
+import Precis.Props.C08
+import Precis.Props.C17
